@@ -106,6 +106,21 @@ def model_runs(ctx, rnd):
     ctx.notes.append('model level: AsImplemented={"nocons"} (conservative cell distance off on an unlimited search, '
                      'seeded change C08-seed2) violates %s (TLC counterexample found)' % inv[0])
     ctx.counters["model_defect_confirmed_nocons"] = 1
+    # (b") initQueue's clean-up of the initial cells when the search disc is covered by descendants of an
+    # index cell (Indexed / Subdivided / Disjoint), finite limits, maxResults > 1; exhaustive.  With the tag
+    # "descid" (seeded change C08-seed3: the index cell is queued under the id of the small initial cell)
+    # TLC must find a counterexample.
+    desc = ([1] if q else [1, 2], 1, 2, 2 if q else 3, 2, 2, 0, [2, INF] if q else [2, 3, INF], [1, 2], [0], [False],
+            2, 2, 1)
+    ctx.tlc("EdgeQuery", model_cfg(*desc, []), workers=4 if q else 10, timeout=900)
+    r = ctx.tlc("EdgeQuery", model_cfg(*desc, ["descid"]), workers=4 if q else 10, timeout=900, allow_violation=True,
+                count=False)
+    inv = [m.group(1) for ln in r.lines for m in [re.match(r"Error: Invariant (\w+) is violated", ln)] if m]
+    if r.ok or not inv:
+        raise vlib.Infra('EdgeQuery.tla with AsImplemented={"descid"} produced no counterexample')
+    ctx.notes.append('model level: AsImplemented={"descid"} (index cell queued under the id of a descendant initial '
+                     'cell, seeded change C08-seed3) violates %s (TLC counterexample found)' % inv[0])
+    ctx.counters["model_defect_confirmed_descid"] = 1
     # (c) the behaviour of the pinned tree before the fix: commits e6edaf0, 3d5e407, 38223d4, 8676a07,
     # transcribed: TLC itself must find the counterexamples (regression models; they show that the
     # invariants are sensitive to exactly these defects)
@@ -119,7 +134,39 @@ def model_runs(ctx, rnd):
         ctx.counters["model_defect_confirmed_" + tag] = 1
 
 
-K_DEFAULTS = {"KLevel": 6, "KIC": 1, "KJC": 1, "KSize": 10, "KA1": {1}, "KA0D": {1}, "KRA": {1}}
+K_DEFAULTS = {"KLevel": 6, "KIC": 1, "KJC": 1, "KSize": 10, "KA1": {1}, "KA0D": {1}, "KRA": {1},
+              "QLevel": 6, "QPtCodes": set(), "QBases": set(), "QD": {4}, "QR": 1}
+EMPTY_W12 = {"N": 1, "PointIdx": set(), "LineSets": "{}", "TriSets": "{}", "TgtPts": set(), "TgtEdges": "{}",
+             "TgtClouds": "{}", "TgtLines": "{}", "TgtFaces": set(), "LimPairs": "{}",
+             "GLevel": 3, "GRectCodes": set(), "GRowCodes": set(), "GTgtCodes": set(), "GCloudCodes": "{}"}
+
+
+def w4_family(rnd, nbases, noffs):
+    """Tiny search discs inside coarse index cells (see Gen_EdgeQuery W4)."""
+    lvl = rnd.choice([10, 11, 12, 13])
+    n = 2 ** lvl
+    code = lambda f, i, j: (f * n + i) * n + j
+    faces = rnd.sample(range(6), 4)
+    pts, first = set(), []
+    for f in faces[:3]:
+        # ten points, at least one in every quadrant: the face stays one index cell with 10 edges
+        quads = [(0, 0), (0, 1), (1, 0), (1, 1)] + [(rnd.randint(0, 1), rnd.randint(0, 1)) for _ in range(6)]
+        grp = set()
+        while len(grp) < 10:
+            qi, qj = quads[len(grp)]
+            grp.add(code(f, qi * n // 2 + rnd.randint(n // 16, n // 2 - n // 16),
+                         qj * n // 2 + rnd.randint(n // 16, n // 2 - n // 16)))
+        pts |= grp
+        if f == faces[0]:
+            first = sorted(grp)
+    while len(pts) < 35:
+        pts.add(code(faces[3], rnd.randint(n // 8, n - n // 8), rnd.randint(n // 8, n - n // 8)))
+    d = dict(EMPTY_W12)
+    d.update(K_DEFAULTS)
+    offs = set(rnd.sample(range(0, 9), noffs))      # offset + 4
+    d.update({"QLevel": lvl, "QPtCodes": pts, "QBases": set(rnd.sample(first, nbases)), "QD": offs,
+              "QR": rnd.randint(5, 7)})
+    return d
 
 
 def w3_family(rnd, big):
@@ -128,9 +175,7 @@ def w3_family(rnd, big):
     n = 2 ** lvl
     a = rnd.randint(4, 9)
     ka1 = {a, a + rnd.randint(1, 3)} if big else {a}
-    d = {"N": 1, "PointIdx": set(), "LineSets": "{}", "TriSets": "{}", "TgtPts": set(), "TgtEdges": "{}",
-         "TgtClouds": "{}", "TgtLines": "{}", "TgtFaces": set(), "LimPairs": "{}",
-         "GLevel": 3, "GRectCodes": set(), "GRowCodes": set(), "GTgtCodes": set(), "GCloudCodes": "{}",
+    d = {**EMPTY_W12, **K_DEFAULTS,
          "KLevel": lvl, "KIC": n - max(ka1) - rnd.randint(1, 2), "KJC": n // 2 + rnd.randint(-n // 8, n // 8),
          "KSize": rnd.choice([10, 10, 12]), "KA1": ka1,
          "KA0D": set(rnd.sample(range(1, 5), 3 if big else 2)),
@@ -290,6 +335,12 @@ def run(ctx):
     for _ in range(1 if q else 6):
         r = ctx.tlc("Gen_EdgeQuery", vlib.cfg(init="InitW3", next_="NextW3", constants=w3_family(rnd, True),
                                               invariants=["EmitW3"]), workers=4, timeout=600)
+        cases += r.tagged.get("CASE", [])
+    # W4: search discs much smaller than the (coarse, 10-edge) index cell containing them
+    for _ in range(1 if q else 5):
+        r = ctx.tlc("Gen_EdgeQuery", vlib.cfg(init="InitW4", next_="NextW4",
+                                              constants=w4_family(rnd, 10, 2 if q else 3),
+                                              invariants=["EmitW4"]), workers=4, timeout=600)
         cases += r.tagged.get("CASE", [])
     ctx.log("cases: %d" % len(cases))
     ctx.replay(cases, timeout=2400)
